@@ -127,6 +127,10 @@ def build_cases(tier):
         gid += 1
     # UCLCHEM forces 0-30 K on FREEZE whatever the line says
     add("uclchem-freeze", "freeze-forced-0-30", (10, 41000), (0.0, 30.0), gid + 1)
+    # ... and on FREEZE only: the desorption types keep the window their line declares (or none)
+    for j, typ in enumerate(("DESCR", "DEUVCR")):  # THERM is not judged: its law underflows to 0 at low temperature
+        add("uclchem-freeze", f"desorb/{typ}/declared", (10, 41000), (10.0, 41000.0), gid + 2 + 2 * j)
+        add("uclchem-freeze", f"desorb/{typ}/none", (0, 0), (0.0, 0.0), gid + 3 + 2 * j)
     return out
 
 
@@ -179,7 +183,10 @@ def run_fmt(arg):
                     ln = F.enc_krome(r, tmin_txt=payload[0] if payload[0] is not None else "NONE", tmax_txt=payload[1] if payload[1] is not None else "NONE", rate="2d0")
                 elif fmt == "uclchem-freeze":
                     realfmt = "uclchem"
-                    r = F.AReaction(["CO"], ["#CO"], 1.0, 0.0, 0.0, payload[0], payload[1], idx, None, "FREEZE")
+                    if label.startswith("desorb/"):
+                        r = F.AReaction(["#CO"], ["CO"], 1.0, 0.0, 0.0, payload[0], payload[1], idx, None, label.split("/")[1])
+                    else:
+                        r = F.AReaction(["CO"], ["#CO"], 1.0, 0.0, 0.0, payload[0], payload[1], idx, None, "FREEZE")
                     ln = F.enc_uclchem(r)
                 else:
                     code = {"kida": 3, "umist": "NN", "leeds": 1, "uclchem": "", "naunet": 100}[fmt]
